@@ -68,6 +68,14 @@ class MDASequential(BaseMDA):
         self.mda_sequence = mda_sequence
         self.settings._sub_mdas = self.mda_sequence
 
+        # An MDA that does not compute the normalized residual norm
+        # (e.g. MDAQuasiNewton with a method without callback) does not output it.
+        name = self.NORMALIZED_RESIDUAL_NORM
+        if name in self.io.output_grammar and any(
+            name not in mda.io.output_grammar for mda in mda_sequence
+        ):
+            del self.io.output_grammar[name]
+
         log_convergence = self.settings.log_convergence
         for mda in self.mda_sequence:
             mda.reset_history_each_run = True
